@@ -509,6 +509,90 @@ func runC16(c *Ctx) {
 	c.rule("R4", "raw message bytes are indexed at constant offsets only under a length guard, a construction length, or the 12-byte minimum of the readers", 30)
 	checkRawIndexGuarded(c, p.funcsIn(relTransport, relDoh, relUpstream, relDnsutils, relServer, relPool), map[string]string{})
 
+	// ---------------------------------------------------------------- R5
+	c.rule("R5", "a reply Write on a shared server connection cannot end half-done and be followed by another frame: no write deadline is armed unless a failed Write closes the connection", 2)
+	for _, f := range p.funcsIn(relServer) {
+		fn := f
+		var writes []*ssa.Call
+		var ddl ssa.Instruction
+		eachInstr(f, func(in ssa.Instruction) {
+			ci, ok := in.(*ssa.Call)
+			if !ok || !ci.Call.IsInvoke() {
+				return
+			}
+			switch ci.Call.Method.Name() {
+			case "Write":
+				if strings.HasSuffix(typeKey(ci.Call.Value.Type()), "net.Conn") || strings.Contains(ci.Call.Value.Type().String(), "quic") {
+					writes = append(writes, ci)
+				}
+			case "SetWriteDeadline", "SetDeadline":
+				ddl = in
+			}
+		})
+		if len(writes) == 0 {
+			continue
+		}
+		// a deadline armed anywhere in the same top-level function (enclosing or nested closures) counts
+		top := fn
+		for top.Parent() != nil {
+			top = top.Parent()
+		}
+		for _, g := range p.funcsIn(relServer) {
+			t2 := g
+			for t2.Parent() != nil {
+				t2 = t2.Parent()
+			}
+			if t2 != top || ddl != nil {
+				continue
+			}
+			eachInstr(g, func(in ssa.Instruction) {
+				if ci, ok := in.(*ssa.Call); ok && ci.Call.IsInvoke() {
+					if n := ci.Call.Method.Name(); n == "SetWriteDeadline" || n == "SetDeadline" {
+						ddl = in
+					}
+				}
+			})
+		}
+		c.see(fn)
+		key := "no-partial-frame@" + funcName(fn)
+		if ddl == nil {
+			c.ok(key, instrPos(writes[0]), "%d stream Write(s), no write deadline is armed: a Write returns only when the whole frame is written or the connection is broken", len(writes))
+			continue
+		}
+		good := true
+		for _, w := range writes {
+			closes := false
+			for _, r := range referrers(w) {
+				ex, ok := r.(*ssa.Extract)
+				if !ok || ex.Type().String() != "error" {
+					continue
+				}
+				for _, r2 := range referrers(ex) {
+					bo, ok := r2.(*ssa.BinOp)
+					if !ok || bo.Op != token.NEQ {
+						continue
+					}
+					for _, r3 := range referrers(bo) {
+						if iff, ok := r3.(*ssa.If); ok {
+							isClose := func(x ssa.Instruction) bool {
+								cc, ok := x.(*ssa.Call)
+								return ok && cc.Call.IsInvoke() && cc.Call.Method.Name() == "Close"
+							}
+							if _, leak := reachFromBlock(iff.Block().Succs[0], isExit, isClose); !leak {
+								closes = true
+							}
+						}
+					}
+				}
+			}
+			if !closes {
+				good = false
+			}
+		}
+		c.check(good, key, instrPos(ddl), "a write deadline is armed, and every failed Write closes the connection",
+			"a write deadline is armed on the connection ("+p.pos(instrPos(ddl))+") but a failed Write does not close it: a Write that times out after part of the frame leaves the connection in service, and the next reply is written behind the half frame — every later frame boundary is wrong")
+	}
+
 	// ---------------------------------------------------------------- R2
 	c.rule("R2", "every stream reader uses the frame reader", 4)
 	if rd != nil {
